@@ -270,6 +270,30 @@ func (c *Check) attrIteration(ruleS, ruleD string) {
 		c.fail(ruleS, "UpdateDecoder.decodePathAttrs", "paFn call", p.Pos(fn.Pos()), "not found")
 		return
 	}
+	// the attribute loop may live in a helper of decodePathAttrs (the walk
+	// split from the mandatory-attribute tail): the loop rules are then
+	// evaluated on that helper, whose block parameter is the caller's block
+	var blockParam ssa.Value = fn.Params[2]
+	errIdx := 0 // index of the error among the results of the loop function
+	if lf := paCall.(ssa.Instruction).Parent(); lf != fn {
+		blockParam = nil
+		for _, prm := range lf.Params {
+			if p.origin(prm) == ssa.Value(fn.Params[2]) {
+				blockParam = prm
+			}
+		}
+		if blockParam == nil {
+			c.undecided(ruleS, "UpdateDecoder.decodePathAttrs", "attribute loop", p.Pos(lf.Pos()), "the loop's helper does not receive decodePathAttrs' block")
+			return
+		}
+		fn = lf
+		res := fn.Signature.Results()
+		for i := 0; i < res.Len(); i++ {
+			if typeKey(res.At(i).Type()) == "error" {
+				errIdx = i
+			}
+		}
+	}
 	// cursor phi
 	var cursor *ssa.Phi
 	for _, blk := range fn.Blocks {
@@ -280,7 +304,7 @@ func (c *Check) attrIteration(ruleS, ruleD string) {
 			}
 			if _, isSlice := phi.Type().Underlying().(*types.Slice); isSlice && inLoop(blk) {
 				for i, e := range phi.Edges {
-					if !blk.Dominates(blk.Preds[i]) && e == ssa.Value(fn.Params[2]) {
+					if !blk.Dominates(blk.Preds[i]) && e == blockParam {
 						cursor = phi
 					}
 				}
@@ -481,8 +505,8 @@ func (c *Check) attrIteration(ruleS, ruleD string) {
 			}
 			okN := false
 			for _, r := range a.Returns {
-				if strings.Contains(r.Results[0].Key, "makeiface:*Notification") {
-					for _, in := range classifyJoined(p, r.State, r.Results[0]) {
+				if strings.Contains(r.Results[errIdx].Key, "makeiface:*Notification") {
+					for _, in := range classifyJoined(p, r.State, r.Results[errIdx]) {
 						if in.Kind == "Notification" && in.Notif != nil {
 							cc, _ := in.Notif.Code.IsConst()
 							ss, _ := in.Notif.Sub.IsConst()
@@ -532,14 +556,16 @@ func (c *Check) attrIteration(ruleS, ruleD string) {
 		if a.Reachable(paCall.(ssa.Instruction)) {
 			probs = append(probs, "paFn reachable although the header overruns the block")
 		}
+		// an overrun site is reached and its error goes into the accumulator
+		// (flowsToAccumulator); totalAttrLenErr's class is checked below
 		okT := false
-		for _, r := range a.Returns {
-			for _, in := range classifyJoined(p, r.State, r.Results[0]) {
-				if in.Kind == "TreatAsWithdraw" {
-					okT = true
-				}
+		for _, cl := range p.callsIn(fn, descIs("totalAttrLenErr")) {
+			if a.Reachable(cl.(ssa.Instruction)) && flowsToAccumulator(cl) {
+				okT = true
 			}
-			if r.Results[0].IsNil() {
+		}
+		for _, r := range a.Returns {
+			if r.Results[errIdx].IsNil() {
 				probs = append(probs, "nil returned for a truncated attribute header")
 			}
 		}
@@ -549,6 +575,80 @@ func (c *Check) attrIteration(ruleS, ruleD string) {
 		c.require(len(probs) == 0, ruleD, "UpdateDecoder.decodePathAttrs", "header overrun: "+w.name, p.Pos(fn.Pos()), strings.Join(probs, "; "))
 	}
 	_ = token.ADD
+	// the overrun error itself: treat-as-withdraw carrying the type code and a
+	// generic UPDATE Message Error as fallback
+	if te := p.Fn("totalAttrLenErr"); te != nil {
+		b := NewAnalysis(p, te)
+		b.Run()
+		okE := len(b.Returns) > 0
+		for _, r := range b.Returns {
+			ec := p.classifyErr(r.State, r.Results[0])
+			good := ec.Kind == "TreatAsWithdraw" && ec.Notif != nil
+			if good {
+				cc, _ := ec.Notif.Code.IsConst()
+				good = cc == 3 && len(te.Params) == 1
+				if inner := r.Results[0].Args[0]; good && inner.Op == "alloc" {
+					cv := p.loadField(r.State, inner, "TreatAsWithdrawUpdateErr", "Code")
+					good = cv != nil && cv.Key == paramExpr(te, 0).Key
+				}
+			}
+			if !good {
+				okE = false
+			}
+		}
+		c.require(okE, ruleD, "totalAttrLenErr", "class of the overrun error", p.Pos(te.Pos()), "*TreatAsWithdrawUpdateErr{Code: the attribute type, Notification: UPDATE Message Error}")
+	}
+}
+
+// flowsToAccumulator: the error produced by call is an operand of an
+// errors.Join whose result is carried on (a phi) or returned.
+func flowsToAccumulator(call ssa.CallInstruction) bool {
+	v, ok := call.(ssa.Value)
+	if !ok {
+		return false
+	}
+	seen := map[ssa.Value]bool{}
+	var walk func(v ssa.Value, depth int) bool
+	walk = func(v ssa.Value, depth int) bool {
+		if seen[v] || depth > 8 || v.Referrers() == nil {
+			return false
+		}
+		seen[v] = true
+		for _, r := range *v.Referrers() {
+			switch x := r.(type) {
+			case *ssa.Phi:
+				return true
+			case *ssa.Return:
+				return true
+			case *ssa.Store:
+				// into the varargs array of errors.Join, or a named result
+				if ia, isIA := x.Addr.(*ssa.IndexAddr); isIA {
+					if arr, isA := ia.X.(*ssa.Alloc); isA {
+						for _, rr := range *arr.Referrers() {
+							if sl, isS := rr.(*ssa.Slice); isS && walk(sl, depth+1) {
+								return true
+							}
+						}
+					}
+				} else if al, isA := x.Addr.(*ssa.Alloc); isA && x.Val == v {
+					_ = al
+					return true
+				}
+			case *ssa.Call:
+				if f, isF := x.Call.Value.(*ssa.Function); isF && f.String() == "errors.Join" {
+					if walk(x, depth+1) {
+						return true
+					}
+				}
+			case *ssa.MakeInterface, *ssa.ChangeInterface:
+				if walk(x.(ssa.Value), depth+1) {
+					return true
+				}
+			}
+		}
+		return false
+	}
+	return walk(v, 0)
 }
 
 // classifyJoined flattens errors.Join trees and classifies the leaves.
